@@ -742,6 +742,119 @@ pub mod verif {
         meta[bucket.0 as usize] = page[bucket.0 as usize - base];
         Some(bucket.0)
     }
+
+    // ---- the write-ahead log: builder, reader and the redo loop of `recover`
+
+    use super::wal::{WalBlobBuilder, WalBlobReader, WalEntry};
+    use crate::{io::PagePool, merkle::ElidedChildren, page_diff::PageDiff};
+    use std::fs::File;
+
+    /// The real `WalBlobBuilder` (its mapping starts at `initial_size` bytes, or at the production
+    /// size of 1 GiB for `None`).
+    pub struct WalSim(WalBlobBuilder);
+
+    impl WalSim {
+        pub fn new(initial_size: Option<usize>) -> anyhow::Result<Self> {
+            Ok(WalSim(match initial_size {
+                Some(size) => WalBlobBuilder::verif_with_initial_size(size)?,
+                None => WalBlobBuilder::new()?,
+            }))
+        }
+
+        pub fn reset(&mut self, sync_seqn: u32) {
+            self.0.reset(sync_seqn)
+        }
+
+        pub fn write_clear(&mut self, bucket: u64) {
+            self.0.write_clear(bucket)
+        }
+
+        pub fn write_update(
+            &mut self,
+            page_id: [u8; 32],
+            page_diff: &PageDiff,
+            changed: Vec<[u8; 32]>,
+            elided_children: u64,
+            bucket: u64,
+        ) {
+            self.0.write_update(
+                page_id,
+                page_diff,
+                changed.into_iter(),
+                ElidedChildren::from_bytes(elided_children.to_le_bytes()),
+                bucket,
+            )
+        }
+
+        pub fn finalize(&mut self) {
+            self.0.finalize()
+        }
+
+        pub fn as_slice(&self) -> &[u8] {
+            self.0.as_slice()
+        }
+    }
+
+    /// `WalEntry` with plain fields.
+    #[derive(Debug, Clone, PartialEq, Eq)]
+    pub enum PlainWalEntry {
+        Clear {
+            bucket: u64,
+        },
+        Update {
+            page_id: [u8; 32],
+            page_diff: [u64; 2],
+            changed_nodes: Vec<[u8; 32]>,
+            elided_children: u64,
+            bucket: u64,
+        },
+    }
+
+    /// `WalBlobReader::new` on the file, then `read_entry` until it returns `None` or fails.
+    /// Outer error: `new` failed. Otherwise the sequence number, the entries delivered and the
+    /// error that ended the loop, if any.
+    pub fn wal_read(
+        wal_fd: &File,
+    ) -> Result<(u32, Vec<PlainWalEntry>, Result<(), String>), String> {
+        let page_pool = PagePool::new();
+        let mut reader = WalBlobReader::new(&page_pool, wal_fd).map_err(|e| format!("{e:#}"))?;
+        let sync_seqn = reader.sync_seqn();
+        let mut entries = Vec::new();
+        let end = loop {
+            match reader.read_entry() {
+                Ok(None) => break Ok(()),
+                Ok(Some(WalEntry::Clear { bucket })) => entries.push(PlainWalEntry::Clear { bucket }),
+                Ok(Some(WalEntry::Update {
+                    page_id,
+                    page_diff,
+                    changed_nodes,
+                    elided_children,
+                    bucket,
+                })) => entries.push(PlainWalEntry::Update {
+                    page_id,
+                    page_diff: page_diff.verif_words(),
+                    changed_nodes,
+                    elided_children: u64::from_le_bytes(elided_children.to_bytes()),
+                    bucket,
+                }),
+                Err(e) => break Err(format!("{e:#}")),
+            }
+        };
+        Ok((sync_seqn, entries, end))
+    }
+
+    /// `DB::open` on the given hash-table and WAL files (runs `recover` if the WAL is not empty).
+    pub fn open_and_recover(
+        sync_seqn: u32,
+        num_pages: u32,
+        seed: [u8; 16],
+        ht_fd: File,
+        wal_fd: File,
+    ) -> anyhow::Result<()> {
+        let db = super::DB::open(sync_seqn, num_pages, seed, PagePool::new(), ht_fd, wal_fd)?;
+        drop(db);
+        Ok(())
+    }
 }
 
 fn hash_page_id(page_id: &PageId, seed: &[u8; 16]) -> u64 {
